@@ -455,7 +455,6 @@ func c10IsPayload(v ssa.Value, depth int) bool {
 	return false
 }
 
-
 // errPropagated decides: on every path from the call src (in fn, or in an
 // eligible helper fn calls) to a return of fn, a non-nil error result #idx of
 // src is returned to fn's caller. A return (or a φ edge feeding a return)
